@@ -10,12 +10,37 @@ package router_info
 
 //@ import "github.com/go-i2p/common/router_identity"
 //@ import "github.com/go-i2p/common/key_certificate"
+//@ import "github.com/go-i2p/common/keys_and_cert"
+//@ import sig "github.com/go-i2p/common/signature"
 
 //@ loop parseRouterAddresses 0: bounded 1
 //@ loop hasCriticalMappingErrors 0: bounded 3
 //@ loop logCriticalMappingErrors 0: bounded 3
 //@ loop serializeRouterInfoFields 0: concrete 4
 //@ loop RouterInfo.serializeWithoutSignature 0: concrete 4
+
+// ---- C05: VerifySignature() == true means the signature is valid under the
+// router identity's signing key over the serialisation without the signature.
+//@ spec func RInfoInv(ri *RouterInfo) bool {
+//@   return ri != nil && (ri.router_identity == nil || ri.router_identity.KeysAndCert == nil || keys_and_cert.KacInv(ri.router_identity.KeysAndCert)) &&
+//@     ri.published != nil && ri.size != nil && ri.peer_size != nil && ri.options != nil
+//@ }
+
+//@ contract (ri *RouterInfo) serializeWithoutSignature() (b []byte, err error)
+//@   pure
+//@   requires RInfoInv(ri) && ri.router_identity != nil
+//@   ensures fresh(b)
+//@   modifies nothing
+
+//@ spec func RInfoSigned(ri *RouterInfo) []byte {
+//@   b, _ := ri.serializeWithoutSignature()
+//@   return b
+//@ }
+
+//@ contract (ri *RouterInfo) VerifySignature() (ok bool, err error)
+//@   requires ri == nil || RInfoInv(ri)
+//@   ensures @C05 ok ==> err == nil && ri != nil && ri.router_identity != nil && ri.signature != nil && sigvalid(ri.router_identity.KeysAndCert.SigningPublic.Bytes(), RInfoSigned(ri), sig.SigData(*ri.signature))
+//@   modifies nothing
 
 // C09: the RouterIdentity inside an accepted RouterInfo obeys the key-type policy.
 //@ lemma C09_ReadRouterInfo(data []byte) {
